@@ -574,6 +574,11 @@ def c10(r):
                     else:
                         if not multiset_sub(c["inds"], q["cur"]) and not (nm == "gen:NBCGeneratorWithLocalMethod" and not q["active"]):
                             out.append(V("C10/generator-pop", f"{nm[4:]} offered a candidate for {did} that is not in its current population", event=i))
+                        if q["active"] and q["cur"] and int(len(q["cur"]) * p.get("truncation_factor", 1.0)) >= 1:
+                            bq = max(q["cur"], key=lambda t: key(t[1])) if mx else min(q["cur"], key=lambda t: key(t[1]))
+                            if not any(key(f_) == key(bq[1]) for _, f_ in c["inds"]):
+                                out.append(V("C10/nbc-contains-best", f"{nm[4:]} offered {len(c['inds'])} candidates for the active deme {did}, none of them its best current individual "
+                                                                      f"(nearest-better clustering always returns the best)", event=i))
                         if nm == "gen:NBCGeneratorWithLocalMethod" and not q["active"]:
                             if q["lvl"] != H - 2 or len(c["inds"]) != 1 or c["inds"][0][1] != (q["best"] or [None, None])[1]:
                                 out.append(V("C10/local-method", f"local-method generator offered {len(c['inds'])} candidates for the inactive deme {did}", event=i))
@@ -741,11 +746,14 @@ def c18(r):
     step_info = None
     round_seen_in_step = False
     last_tree_consult = None
+    gen_offered = {}
     for i, e in enumerate(ev):
         k = e["e"]
         if k == "round_b":
             round_seen_in_step = True
             before = {d["id"]: d for d in e["snap"]["demes"]}
+        elif k == "stage" and e["name"].startswith("gen:"):
+            gen_offered = {d_: len(c_["inds"]) for d_, c_ in e["out"].items()}
         elif k == "seeds":
             seeds = {d for d, inds in e["seeds"].items() if inds}     # a deme "sprouted" only if the round took at least one seed from it
         elif k == "round_e":
@@ -796,7 +804,11 @@ def c18(r):
             # liveness premise (DESIGN section 0): an engine iteration that ran but evaluated nothing (all-false mutation
             # mask, ...) is not a stall; a metaepoch in which NO engine iteration happened at all is
             if step_info[1] and calls_in_step == 0 and iters_in_step == 0:
-                if hib_on and step_info[3]:
+                starved = [d_ for d_ in step_info[2] if gen_offered.get(d_, 1) == 0]
+                if hib_on and step_info[3] and starved:
+                    out.append(V("C18/progress/generator-offered-nothing", f"metaepoch {e['m']} passed without an evaluation: the hibernating deme(s) {starved} were offered NO candidates "
+                                                                           f"at all by the generator in the last round, so no round can ever wake them", event=i))
+                elif hib_on and step_info[3]:
                     out.append(V("C18/progress/all-active-demes-hibernating",
                                  f"metaepoch {e['m']} passed without a single objective evaluation: every active deme ({step_info[2]}) was hibernating", event=i))
                 else:
